@@ -27,7 +27,7 @@ LEVEL_NOTE = ("Trusted: Lean kernel + standard axioms; harness observation code;
               "C08 and observed here after every step; rectangularity of join/sort/aggregate results is observed, their cell "
               "content is C09–C14's business.")
 
-STRUCT = {"stack", "stackdict", "append", "appendt", "slice", "mask", "T"}
+STRUCT = {"stack", "stackdict", "stackdictv", "append", "appendt", "slice", "mask", "T"}
 
 
 def generate(rng, tier):
